@@ -212,7 +212,21 @@ def write_evidence(pid, ctx: Ctx, level: str, lean_res, trusted_base, assumption
     (d / f"{pid}.json").write_text(json.dumps(ev, indent=1, sort_keys=True) + "\n")
 
 
-def check_property(pid: str, tier: str, seed: int) -> int:
+def setup() -> int:
+    """Build the driver and every Props module named by a property module."""
+    mods = []
+    for f in sorted((VERIF / "harness" / "props").glob("c[0-9][0-9].py")):
+        m = importlib.import_module(f"harness.props.{f.stem}")
+        for x in getattr(m, "LEAN_MODULES", []):
+            if x not in mods:
+                mods.append(x)
+    with LeanLock():
+        rc, out = run(["lake", "build", "driver"] + mods, cwd=LEAN, timeout=7200)
+    print(out[-3000:])
+    return 0 if rc == 0 else 2
+
+
+def check_property(pid: str, tier: str, seed: int, no_lean: bool = False) -> int:
     try:
         mod = importlib.import_module(f"harness.props.{pid.lower()}")
     except ModuleNotFoundError:
@@ -226,7 +240,7 @@ def check_property(pid: str, tier: str, seed: int) -> int:
     findings, fixed = load_known_findings(pid)
 
     # 1. regenerate
-    gen = regenerate(getattr(mod, "GEN", []))
+    gen = [] if no_lean else regenerate(getattr(mod, "GEN", []))
     for name, status, detail in gen:
         if status == "error":
             ctx.fail("proof", f"translator:{name}", f"translator {name} cannot translate the current source: {detail[:300]}")
@@ -235,7 +249,7 @@ def check_property(pid: str, tier: str, seed: int) -> int:
 
     # 2. theorems
     lean_res = None
-    if modules or theorems:
+    if (modules or theorems) and not no_lean:
         lean_res = lean_build_and_audit(pid, modules, theorems, ctx.thorough)
         for name, why in lean_res["broken"]:
             ctx.fail("proof", f"theorem:{name}", f"{name}: {why}")
@@ -356,8 +370,12 @@ def main(argv):
     ap.add_argument("what")
     ap.add_argument("path", nargs="?")
     ap.add_argument("--tier", default=os.environ.get("VERIF_TIER", "quick"))
+    ap.add_argument("--no-lean", action="store_true",
+                    help="development only: skip regeneration/build/audit, run correspondence + oracle with the current driver")
     a = ap.parse_args(argv)
     seed = int(os.environ.get("VERIF_SEED", "0") or 0)
     if a.what == "replay":
         return replay_file(a.path)
-    return check_property(a.what.upper(), a.tier, seed)
+    if a.what == "setup":
+        return setup()
+    return check_property(a.what.upper(), a.tier, seed, no_lean=a.no_lean)
